@@ -45,21 +45,41 @@ structure Adv (w w' : W) : Prop where
   sts : AdvS w.sts w'.sts
   lo : w'.lo = w.lo
   hi : w'.hi = w.hi
+  /-- the writers only ever push onto `deferred` -/
+  dsuf : ∃ pre, w'.deferred = pre ++ w.deferred
+  /-- `fault` is never cleared -/
+  flt : w.fault = true → w'.fault = true
 
-theorem Adv.refl (w : W) : Adv w w := ⟨AdvS.refl _, rfl, rfl⟩
-theorem Adv.trans {a b c : W} (h1 : Adv a b) (h2 : Adv b c) : Adv a c :=
-  ⟨h1.sts.trans h2.sts, h2.lo.trans h1.lo, h2.hi.trans h1.hi⟩
+theorem Adv.refl (w : W) : Adv w w := ⟨AdvS.refl _, rfl, rfl, ⟨[], rfl⟩, fun h => h⟩
+theorem Adv.trans {a b c : W} (h1 : Adv a b) (h2 : Adv b c) : Adv a c := by
+  refine ⟨h1.sts.trans h2.sts, h2.lo.trans h1.lo, h2.hi.trans h1.hi, ?_, fun h => h2.flt (h1.flt h)⟩
+  obtain ⟨p1, e1⟩ := h1.dsuf
+  obtain ⟨p2, e2⟩ := h2.dsuf
+  exact ⟨p2 ++ p1, by rw [e2, e1, List.append_assoc]⟩
 
-/-- a step that does not touch the table and the range -/
-theorem Adv.of_eq {w w' : W} (h1 : w'.sts = w.sts) (h2 : w'.lo = w.lo) (h3 : w'.hi = w.hi) : Adv w w' :=
-  ⟨by rw [h1]; exact AdvS.refl _, h2, h3⟩
+/-- the same without the claim on `deferred` (`write_graph` pops what the writers pushed) -/
+structure Adv0 (w w' : W) : Prop where
+  sts : AdvS w.sts w'.sts
+  lo : w'.lo = w.lo
+  hi : w'.hi = w.hi
+  flt : w.fault = true → w'.fault = true
+
+theorem Adv.weak {a b : W} (h : Adv a b) : Adv0 a b := ⟨h.sts, h.lo, h.hi, h.flt⟩
+theorem Adv0.refl (w : W) : Adv0 w w := (Adv.refl w).weak
+theorem Adv0.trans {a b c : W} (h1 : Adv0 a b) (h2 : Adv0 b c) : Adv0 a c :=
+  ⟨h1.sts.trans h2.sts, h2.lo.trans h1.lo, h2.hi.trans h1.hi, fun h => h2.flt (h1.flt h)⟩
+
+/-- a step that does not touch the table, the range and the deferred stack, and does not clear `fault` -/
+theorem Adv.of_eq {w w' : W} (h1 : w'.sts = w.sts) (h2 : w'.lo = w.lo) (h3 : w'.hi = w.hi)
+    (h4 : w'.deferred = w.deferred := by rfl) (h5 : w.fault = true → w'.fault = true := by exact fun h => h) : Adv w w' :=
+  ⟨by rw [h1]; exact AdvS.refl _, h2, h3, ⟨[], by rw [h4]; rfl⟩, h5⟩
 
 theorem adv_write (w : W) (s : Str) : Adv w (w.write s) := Adv.of_eq rfl rfl rfl
 theorem adv_writeS (w : W) (s : String) : Adv w (w.writeS s) := Adv.of_eq rfl rfl rfl
 theorem adv_newline (w : W) : Adv w w.newline := Adv.of_eq rfl rfl rfl
 theorem adv_more (w : W) (env : Env) : Adv w (w.more env) := Adv.of_eq rfl rfl rfl
 theorem adv_less (w : W) (env : Env) : Adv w (w.less env) := Adv.of_eq rfl rfl rfl
-theorem adv_fault (w : W) : Adv w { w with fault := true } := Adv.of_eq rfl rfl rfl
+theorem adv_fault (w : W) : Adv w { w with fault := true } := Adv.of_eq rfl rfl rfl rfl (fun _ => rfl)
 theorem adv_noteIri (w : W) (p : Pos) (s : Str) : Adv w (w.noteIri p s) := by
   unfold W.noteIri; split <;> exact Adv.of_eq rfl rfl rfl
 theorem adv_noteLit (w : W) (t : Term) : Adv w (w.noteLit t) := by
@@ -83,7 +103,7 @@ theorem advS_setDone (s : List STEntry) (i : Nat) :
     exact ⟨_, rfl, EntAdv.refl e⟩
 
 theorem adv_setDone (w : W) (i : Nat) : Adv w (w.setDone i) :=
-  ⟨advS_setDone w.sts i, rfl, rfl⟩
+  ⟨advS_setDone w.sts i, rfl, rfl, ⟨[], rfl⟩, fun h => h⟩
 
 theorem adv_foldl {α : Type} (g : W → α → W) (h : ∀ w x, Adv w (g w x)) (xs : List α) (w : W) :
     Adv w (xs.foldl g w) := by
@@ -136,7 +156,19 @@ theorem writers_adv (env : Env) : ∀ f, WritersAdv env f
           · split
             · next e _ =>
               split
-              · exact (adv_writeS _ _).trans ((hP _ _).trans ((adv_writeS _ _).trans (adv_setDone _ _)))
+              · split
+                · split
+                  · refine Adv.trans ?_ (adv_write _ _)
+                    exact ⟨AdvS.refl _, rfl, rfl, ⟨[_], rfl⟩, fun h => h⟩
+                  · exact Adv.refl _
+                · have h1 : Adv w (({ w with nesting := w.nesting + 1 } : W).writeS "[") :=
+                    (Adv.of_eq (w := w) (w' := { w with nesting := w.nesting + 1 }) rfl rfl rfl).trans (adv_writeS _ _)
+                  have h2 := hP (({ w with nesting := w.nesting + 1 } : W).writeS "[") e.s
+                  exact h1.trans (h2.trans ((Adv.of_eq
+                    (w := writeProperties env f (({ w with nesting := w.nesting + 1 } : W).writeS "[") e.s)
+                    (w' := { (writeProperties env f (({ w with nesting := w.nesting + 1 } : W).writeS "[") e.s) with
+                      nesting := (writeProperties env f (({ w with nesting := w.nesting + 1 } : W).writeS "[") e.s).nesting - 1 })
+                    rfl rfl rfl).trans ((adv_writeS _ _).trans (adv_setDone _ _))))
               · exact adv_writeS _ _
               · exact Adv.refl _
             · exact Adv.refl _
@@ -204,7 +236,7 @@ theorem adv_graphStep (env : Env) (fuel : Nat) (w : W) (i : Nat) : Adv w (graphS
 /-- entry `i` is `Done` -/
 def DoneAt (w : W) (i : Nat) (s : Term) : Prop := ∃ e, w.sts[i]? = some e ∧ e.st = .done ∧ e.s = s
 
-theorem DoneAt.adv {w w' : W} {i : Nat} {s : Term} (h : DoneAt w i s) (a : Adv w w') : DoneAt w' i s := by
+theorem DoneAt.adv {w w' : W} {i : Nat} {s : Term} (h : DoneAt w i s) (a : Adv0 w w') : DoneAt w' i s := by
   obtain ⟨e, he, hd, hs⟩ := h
   obtain ⟨e', he', _, hs', ht⟩ := a.sts.get i e he
   refine ⟨e', he', ?_, hs'.trans hs⟩
@@ -245,7 +277,7 @@ theorem foldl_graphStep (env : Env) (fuel : Nat) (idxs : List Nat) (w : W) :
     intro i hi e he hst
     by_cases hij : i = j
     · subst hij
-      exact (graphStep_done env fuel w i e he hst).adv ha
+      exact (graphStep_done env fuel w i e he hst).adv ha.weak
     · have hi' : i ∈ rest := by
         rcases List.mem_cons.mp hi with h | h
         · exact absurd h hij
@@ -259,21 +291,113 @@ theorem foldl_graphStep (env : Env) (fuel : Nat) (idxs : List Nat) (w : W) :
       rw [hs'] at this
       exact this
 
-theorem writeGraph_eq (env : Env) (fuel : Nat) (w : W) :
-    writeGraph env fuel w = ((List.range w.hi).filter (fun i => w.lo ≤ i)).foldl (graphStep env fuel) w := rfl
+theorem writeRoots_eq (env : Env) (fuel : Nat) (w : W) :
+    writeRoots env fuel w = ((List.range w.hi).filter (fun i => w.lo ≤ i)).foldl (graphStep env fuel) w := rfl
+
+theorem adv_writeRoots (env : Env) (fuel : Nat) (w : W) : Adv w (writeRoots env fuel w) := by
+  rw [writeRoots_eq]
+  exact (foldl_graphStep env fuel _ w).1
+
+/-- the `while let Some(i) = self.deferred.pop()` loop only advances the state (it pops, hence the weak relation) -/
+theorem adv0_drain (env : Env) (fuel : Nat) : ∀ (n : Nat) (w : W), Adv0 w (drainDeferred env fuel n w)
+  | 0, w => by
+    unfold drainDeferred
+    split
+    · exact Adv0.refl _
+    · exact (adv_fault w).weak
+  | n + 1, w => by
+    unfold drainDeferred
+    split
+    · exact Adv0.refl _
+    · next i rest _ =>
+      dsimp only
+      split
+      · next e _ =>
+        have a0 : Adv0 w { w with deferred := rest } := ⟨AdvS.refl _, rfl, rfl, fun h => h⟩
+        exact a0.trans ((((adv_writeTree env fuel _ e.s).trans (adv_setDone _ i)).weak).trans (adv0_drain env fuel n _))
+      · exact ⟨AdvS.refl _, rfl, rfl, fun _ => rfl⟩
+
+/-- the deferred loop: unless it runs out of its iteration bound or meets an index outside the table (`fault`), it
+ends with an empty stack, and every entry that was on the stack — each handed to `write_tree` — is `Done` -/
+theorem drain_done (env : Env) (fuel : Nat) : ∀ (n : Nat) (w : W),
+    (drainDeferred env fuel n w).fault = true ∨
+    ((drainDeferred env fuel n w).deferred = [] ∧
+      ∀ i ∈ w.deferred, ∀ e, w.sts[i]? = some e → DoneAt (drainDeferred env fuel n w) i e.s)
+  | 0, w => by
+    unfold drainDeferred
+    split
+    · next he =>
+      have : w.deferred = [] := by simpa using he
+      exact Or.inr ⟨this, by rw [this]; intro i hi; cases hi⟩
+    · exact Or.inl rfl
+  | n + 1, w => by
+    unfold drainDeferred
+    split
+    · next hd => exact Or.inr ⟨hd, by rw [hd]; intro i hi; cases hi⟩
+    · next i rest hd =>
+      dsimp only
+      split
+      · next e he =>
+        -- one iteration: pop `i`, write its tree, mark it
+        have hw : Adv { w with deferred := rest } ((writeTree env fuel { w with deferred := rest } e.s).setDone i) :=
+          (adv_writeTree env fuel _ e.s).trans (adv_setDone _ i)
+        have hdone : DoneAt ((writeTree env fuel { w with deferred := rest } e.s).setDone i) i e.s := by
+          obtain ⟨e', he', _, hs', _⟩ := (adv_writeTree env fuel { w with deferred := rest } e.s).sts.get i e he
+          have := doneAt_setDone (writeTree env fuel { w with deferred := rest } e.s) i e' he'
+          rw [hs'] at this
+          exact this
+        rcases drain_done env fuel n ((writeTree env fuel { w with deferred := rest } e.s).setDone i) with hf | ⟨hemp, hall⟩
+        · exact Or.inl hf
+        · refine Or.inr ⟨hemp, ?_⟩
+          intro j hj ej hej
+          rw [hd] at hj
+          by_cases hji : j = i
+          · subst hji
+            have : ej = e := by
+              have h' : ({ w with deferred := rest } : W).sts[j]? = some ej := hej
+              rw [he] at h'
+              exact (Option.some.inj h').symm
+            subst this
+            exact hdone.adv (adv0_drain env fuel n _)
+          · have hjr : j ∈ rest := by
+              rcases List.mem_cons.mp hj with h | h
+              · exact absurd h hji
+              · exact h
+            obtain ⟨pre, hpre⟩ := hw.dsuf
+            have hj1 : j ∈ ((writeTree env fuel { w with deferred := rest } e.s).setDone i).deferred := by
+              rw [hpre]; exact List.mem_append_right _ hjr
+            obtain ⟨e1, he1, _, hs1, _⟩ := hw.sts.get j ej hej
+            have := hall j hj1 e1 he1
+            rw [hs1] at this
+            exact this
+      · exact Or.inl rfl
+
+theorem adv_writeGraph (env : Env) (fuel : Nat) (w : W) : Adv0 w (writeGraph env fuel w) := by
+  unfold writeGraph
+  exact (adv_writeRoots env fuel w).weak.trans (adv0_drain env fuel _ _)
 
 /-- `write_graph`: every `Root` of the current graph's range is handed to `write_tree` and marked `Done`
 (`Done` entries stay `Done`, nothing else about the table changes) -/
 theorem writeGraph_roots_done (env : Env) (fuel : Nat) (w : W) (i : Nat) (e : STEntry)
     (hlo : w.lo ≤ i) (hhi : i < w.hi) (he : w.sts[i]? = some e) (hst : e.st = .root) :
     DoneAt (writeGraph env fuel w) i e.s := by
-  rw [writeGraph_eq]
-  refine (foldl_graphStep env fuel _ w).2 i ?_ e he (Or.inl hst)
-  simp [List.mem_filter, hlo, hhi]
+  have h1 : DoneAt (writeRoots env fuel w) i e.s := by
+    rw [writeRoots_eq]
+    refine (foldl_graphStep env fuel _ w).2 i ?_ e he (Or.inl hst)
+    simp [List.mem_filter, hlo, hhi]
+  unfold writeGraph
+  exact h1.adv (adv0_drain env fuel _ _)
 
-theorem adv_writeGraph (env : Env) (fuel : Nat) (w : W) : Adv w (writeGraph env fuel w) := by
-  rw [writeGraph_eq]
-  exact (foldl_graphStep env fuel _ w).1
+/-- `write_graph` and the blank nodes deferred at the nesting cap: unless `fault`, nothing is left on the stack and
+every entry deferred while the Roots were written (and, through `drain_done`, while deferred trees were written) is
+`Done`: it was described by a `write_tree` of its own -/
+theorem writeGraph_deferred_done (env : Env) (fuel : Nat) (w : W) :
+    (writeGraph env fuel w).fault = true ∨
+    ((writeGraph env fuel w).deferred = [] ∧
+      ∀ i ∈ (writeRoots env fuel w).deferred, ∀ e, (writeRoots env fuel w).sts[i]? = some e →
+        DoneAt (writeGraph env fuel w) i e.s) := by
+  unfold writeGraph
+  exact drain_done env fuel _ _
 
 /-- no `Root` is left among the first `w.hi` entries of the subject table -/
 def NoRootBelow (w : W) : Prop := ∀ (i : Nat) (e : STEntry), i < w.hi → w.sts[i]? = some e → e.st ≠ .root
@@ -306,7 +430,7 @@ theorem writeGraph_noRoot (env : Env) (fuel : Nat) (w : W)
       rw [hdone]; intro c; cases c
     · exact not_root_adv hadv hr
 
-theorem noRoot_of_adv {w w' : W} (a : Adv w w') (h : NoRootBelow w) : NoRootBelow w' := by
+theorem noRoot_of_adv {w w' : W} (a : Adv0 w w') (h : NoRootBelow w) : NoRootBelow w' := by
   intro i e' hi he'
   rw [a.hi] at hi
   have hi_lt : i < w.sts.length := by
@@ -317,72 +441,6 @@ theorem noRoot_of_adv {w w' : W} (a : Adv w w') (h : NoRootBelow w) : NoRootBelo
   rw [he'] at he''
   cases he''
   exact not_root_adv hadv (h i _ hi (List.getElem?_eq_getElem hi_lt))
-
-/-- the loop over the named graphs: unless it hits `g1.unwrap()` on `None` (`fault`), at the end `hi` has reached
-the end of the subject table and no `Root` is left below it -/
-theorem namedGraphs_noRoot (env : Env) (fuel : Nat) : ∀ (n : Nat) (w : W), NoRootBelow w → w.sts.length - w.hi < n →
-    (writeNamedGraphs env fuel n w).fault = true ∨
-    (NoRootBelow (writeNamedGraphs env fuel n w) ∧
-      (writeNamedGraphs env fuel n w).sts.length ≤ (writeNamedGraphs env fuel n w).hi)
-  | 0, _, _, hn => by omega
-  | n + 1, w, h, hn => by
-    unfold writeNamedGraphs
-    split
-    · next hge => exact Or.inr ⟨h, hge⟩
-    · next hlt =>
-      have hlt' : w.hi < w.sts.length := by omega
-      dsimp only
-      obtain ⟨e0, he0⟩ : ∃ e0, w.sts[w.hi]? = some e0 := ⟨_, List.getElem?_eq_getElem hlt'⟩
-      rw [he0]
-      dsimp only
-      cases hg : e0.g with
-      | none => exact Or.inl rfl
-      | some g =>
-        dsimp only
-        -- the block of the next graph is not empty: its first entry has this very graph name
-        have hc : 0 < ((w.sts.drop w.hi).takeWhile (fun e => gEq (some g) e.g)).length := by
-          have hd : w.sts.drop w.hi = e0 :: w.sts.drop (w.hi + 1) := by
-            rw [List.drop_eq_getElem_cons hlt']
-            congr 1
-            have := List.getElem?_eq_getElem hlt'
-            rw [he0] at this
-            exact (Option.some.inj this).symm
-          rw [hd, List.takeWhile_cons]
-          have : gEq (some g) e0.g = true := by rw [hg]; exact PrettyEmit.gEq_refl _
-          simp [this]
-        have hT := (writers_adv env fuel).1
-        let c := ((w.sts.drop w.hi).takeWhile (fun e => gEq (some g) e.g)).length
-        let W1 : W := { w with lo := w.hi, hi := w.hi + c }
-        let W2 : W := ((writeTerm env fuel (W1.newline.writeS "GRAPH ") .other g).writeS " {").more env
-        let W3 : W := writeGraph env fuel W2
-        let W4 : W := (W3.less env).writeS "}\n"
-        have a12 : Adv W1 W2 :=
-          (adv_newline _).trans ((adv_writeS _ _).trans ((hT _ _ _).trans ((adv_writeS _ _).trans (adv_more _ _))))
-        have a23 : Adv W2 W3 := adv_writeGraph env fuel W2
-        have a34 : Adv W3 W4 := (adv_less _ _).trans (adv_writeS _ _)
-        have n3 : NoRootBelow W3 := by
-          refine writeGraph_noRoot env fuel W2 (fun i e hi he => ?_)
-          rw [a12.lo] at hi
-          have hi_lt : i < w.sts.length := by
-            have : i < w.hi := hi
-            omega
-          obtain ⟨e'', he'', hadv⟩ := a12.sts.get i _ (List.getElem?_eq_getElem (l := W1.sts) hi_lt)
-          rw [he] at he''
-          cases he''
-          exact not_root_adv hadv (h i _ hi (List.getElem?_eq_getElem hi_lt))
-        have n4 : NoRootBelow W4 := noRoot_of_adv a34 n3
-        have hlen : W4.sts.length - W4.hi < n := by
-          have l4 : W4.sts.length = w.sts.length := by
-            have := a34.sts.1; have := a23.sts.1; have := a12.sts.1
-            show W4.sts.length = W1.sts.length
-            omega
-          have h4 : W4.hi = w.hi + c := by
-            have := a34.hi; have := a23.hi; have := a12.hi
-            show W4.hi = W1.hi
-            omega
-          have : 0 < c := hc
-          omega
-        exact namedGraphs_noRoot env fuel n W4 n4 hlen
 
 /-- the loop over the named graphs only advances the subject table -/
 theorem namedGraphs_advS (env : Env) (fuel : Nat) : ∀ (n : Nat) (w : W), AdvS w.sts (writeNamedGraphs env fuel n w).sts
@@ -399,59 +457,10 @@ theorem namedGraphs_advS (env : Env) (fuel : Nat) : ∀ (n : Nat) (w : W), AdvS 
         refine AdvS.trans ?_ (namedGraphs_advS env fuel n _)
         let c := ((w.sts.drop w.hi).takeWhile (fun e => gEq (match w.sts[w.hi]? with | some e => e.g | none => none) e.g)).length
         let W1 : W := { w with lo := w.hi, hi := w.hi + c }
-        have a : Adv W1 ((((writeGraph env fuel (((writeTerm env fuel (W1.newline.writeS "GRAPH ") .other g).writeS " {").more env)).less env)).writeS "}\n") :=
-          (adv_newline _).trans ((adv_writeS _ _).trans ((hT _ _ _).trans ((adv_writeS _ _).trans ((adv_more _ _).trans
-            ((adv_writeGraph env fuel _).trans ((adv_less _ _).trans (adv_writeS _ _)))))))
+        have a : Adv0 W1 ((((writeGraph env fuel (((writeTerm env fuel (W1.newline.writeS "GRAPH ") .other g).writeS " {").more env)).less env)).writeS "}\n") :=
+          ((adv_newline _).trans ((adv_writeS _ _).trans ((hT _ _ _).trans ((adv_writeS _ _).trans (adv_more _ _))))).weak.trans
+            ((adv_writeGraph env fuel _).trans ((adv_less _ _).trans (adv_writeS _ _)).weak)
         exact a.sts
-
-/-- `prettify`: unless the writer hits `g1.unwrap()` on `None`, every entry of the subject table that the analysis
-left as `Root` (in any graph) has been handed to `write_tree` and is `Done` at the end; no entry changes its
-(graph, subject), and a type only ever changes to `Done`. -/
-theorem prettify_roots_done (cfg : Cfg) (d : List Quad) (lists : Lists) (sts : List STEntry) (w : W)
-    (hl : buildLists d (buildSubjectTypes d (buildLabelled d)) = some (lists, sts))
-    (h : prettify cfg d = .done w) :
-    AdvS sts w.sts ∧ (w.fault = true ∨ ∀ e ∈ w.sts, e.st ≠ .root) := by
-  unfold prettify at h
-  dsimp only at h
-  rw [hl] at h
-  dsimp only at h
-  split at h
-  · cases h
-    exact ⟨AdvS.refl _, Or.inr (by
-      intro e he
-      rename_i hemp
-      have : sts = [] := by simpa using hemp
-      subst this
-      cases he)⟩
-  · cases h
-    let upper := (sts.takeWhile (fun e => e.g.isNone)).length
-    let env : Env := ⟨d, cfg, buildLabelled d⟩
-    let w0 : W := { out := writePrefixes cfg.prefixMap, sts := sts, lists := lists, lo := 0, hi := upper }
-    let fuel := fuelFor d
-    let w1 : W := if w0.hi > 0 then writeGraph env fuel w0 else w0
-    have a01 : Adv w0 w1 := by
-      show Adv w0 (if w0.hi > 0 then writeGraph env fuel w0 else w0)
-      split
-      · exact adv_writeGraph env fuel w0
-      · exact Adv.refl _
-    have n1 : NoRootBelow w1 := by
-      show NoRootBelow (if w0.hi > 0 then writeGraph env fuel w0 else w0)
-      split
-      · exact writeGraph_noRoot env fuel w0 (fun i e hi _ => by have : i < 0 := hi; omega)
-      · next hz =>
-        intro i e hi _
-        have : i < w0.hi := hi
-        omega
-    have hlen : w1.sts.length - w1.hi < sts.length + 1 := by
-      have : w1.sts.length = sts.length := a01.sts.1
-      omega
-    refine ⟨AdvS.trans a01.sts (namedGraphs_advS env fuel (sts.length + 1) w1), ?_⟩
-    rcases namedGraphs_noRoot env fuel (sts.length + 1) w1 n1 hlen with hf | ⟨hn, hle⟩
-    · exact Or.inl hf
-    · refine Or.inr (fun e he => ?_)
-      obtain ⟨i, hi, rfl⟩ := List.getElem_of_mem he
-      have hi' : i < (writeNamedGraphs env fuel (sts.length + 1) w1).sts.length := hi
-      exact hn i _ (Nat.lt_of_lt_of_le hi' hle) (List.getElem?_eq_getElem hi)
 
 /-! ### the default graph comes first: the loop over the named graphs never meets `None` -/
 
@@ -723,9 +732,9 @@ theorem namedGraphs_noRoot' (env : Env) (fuel : Nat) : ∀ (n : Nat) (w : W), No
         let W4 : W := (W3.less env).writeS "}\n"
         have a12 : Adv W1 W2 :=
           (adv_newline _).trans ((adv_writeS _ _).trans ((hT _ _ _).trans ((adv_writeS _ _).trans (adv_more _ _))))
-        have a23 : Adv W2 W3 := adv_writeGraph env fuel W2
+        have a23 : Adv0 W2 W3 := adv_writeGraph env fuel W2
         have a34 : Adv W3 W4 := (adv_less _ _).trans (adv_writeS _ _)
-        have a14 : Adv W1 W4 := a12.trans (a23.trans a34)
+        have a14 : Adv0 W1 W4 := a12.weak.trans (a23.trans a34.weak)
         have n3 : NoRootBelow W3 := by
           refine writeGraph_noRoot env fuel W2 (fun i e hi he => ?_)
           rw [a12.lo] at hi
@@ -736,7 +745,7 @@ theorem namedGraphs_noRoot' (env : Env) (fuel : Nat) : ∀ (n : Nat) (w : W), No
           rw [he] at he''
           cases he''
           exact not_root_adv hadv (h i _ hi (List.getElem?_eq_getElem hi_lt))
-        have n4 : NoRootBelow W4 := noRoot_of_adv a34 n3
+        have n4 : NoRootBelow W4 := noRoot_of_adv a34.weak n3
         have l4 : W4.sts.length = w.sts.length := a14.sts.1
         have h4 : W4.hi = w.hi + c := a14.hi
         have hlen : W4.sts.length - W4.hi < n := by
@@ -782,11 +791,11 @@ theorem serialize_roots_done (cfg : Cfg) (quads : List Quad) (lists : Lists) (st
     let w0 : W := { out := writePrefixes cfg.prefixMap, sts := sts, lists := lists, lo := 0, hi := upper }
     let fuel := fuelFor d
     let w1 : W := if w0.hi > 0 then writeGraph env fuel w0 else w0
-    have a01 : Adv w0 w1 := by
-      show Adv w0 (if w0.hi > 0 then writeGraph env fuel w0 else w0)
+    have a01 : Adv0 w0 w1 := by
+      show Adv0 w0 (if w0.hi > 0 then writeGraph env fuel w0 else w0)
       split
       · exact adv_writeGraph env fuel w0
-      · exact Adv.refl _
+      · exact Adv0.refl _
     have n1 : NoRootBelow w1 := by
       show NoRootBelow (if w0.hi > 0 then writeGraph env fuel w0 else w0)
       split
@@ -816,5 +825,40 @@ theorem serialize_roots_done (cfg : Cfg) (quads : List Quad) (lists : Lists) (st
     obtain ⟨i, hi, rfl⟩ := List.getElem_of_mem he
     have hi' : i < (writeNamedGraphs env fuel (sts.length + 1) w1).sts.length := hi
     exact hn i _ (Nat.lt_of_lt_of_le hi' hle) (List.getElem?_eq_getElem hi)
+
+/-! ### nothing stays deferred -/
+
+/-- the deferred stack is empty (or the writer gave up: `fault`) -/
+def Drained (w : W) : Prop := w.fault = true ∨ w.deferred = []
+
+theorem writeGraph_drained (env : Env) (fuel : Nat) (w : W) : Drained (writeGraph env fuel w) :=
+  (writeGraph_deferred_done env fuel w).imp id (·.1)
+
+theorem namedGraphs_drained (env : Env) (fuel : Nat) : ∀ (n : Nat) (w : W), Drained w →
+    Drained (writeNamedGraphs env fuel n w)
+  | 0, w, h => by unfold writeNamedGraphs; exact h
+  | n + 1, w, h => by
+    unfold writeNamedGraphs
+    split
+    · exact h
+    · dsimp only
+      split
+      · exact Or.inl rfl
+      · exact namedGraphs_drained env fuel n _ (writeGraph_drained env fuel _)
+
+/-- at the end of `serialize` no blank node is left on the deferred stack: every blank node that was labelled
+because of the nesting cap has been described by a `write_tree` of its own (`writeGraph_deferred_done`) -/
+theorem serialize_drained (cfg : Cfg) (quads : List Quad) (w : W) (h : serialize cfg quads = .done w) : Drained w := by
+  unfold serialize prettify at h
+  dsimp only at h
+  split at h
+  · cases h
+  · split at h
+    · cases h; exact Or.inr rfl
+    · cases h
+      apply namedGraphs_drained
+      split
+      · exact writeGraph_drained _ _ _
+      · exact Or.inr rfl
 
 end SophiaProofs.Lemmas.PrettyWriter
